@@ -7,7 +7,7 @@ def claim(pid, text, note, technique, design_ref):
 
 
 claim("C08",
-      text="19 Lean 4 theorems over a model of tsdb.escape/unescape/split/join/cast/format and itsdb.Row state the encoding "
+      text="23 Lean 4 theorems over a model of tsdb.escape/unescape/split/join/cast/format and itsdb.Row state the encoding "
            "clauses for every string, record, integer and date-time: unescape∘escape = id and escape∘unescape = id on the image, "
            "unescape succeeds exactly on well-escaped text, no raw newline/delimiter in an escaped value, injectivity, "
            "split∘join = id modulo ''/None (with and without the trailing newline), exactly n-1 delimiters, join injective; "
@@ -15,9 +15,12 @@ claim("C08",
            "(through the two date regexes, _date_fix and the strptime acceptance model); row access by index (any sign), slice "
            "(any start/stop/step), name and iteration all equal the cast of the stored raw data. The model is tied to the code by "
            "running both on >10k generated inputs per run (exhaustive over the special alphabet up to length 4/5, every documented "
-           "date spelling of boundary instants) and by escape/month tables regenerated from the live module. The float clause is "
-           "outside any model (CPython repr) and is decided by a direct oracle only; 'all documented date spellings denote the "
-           "same instant' is decided by oracle + correspondence (the theorem covers the spelling format() produces).",
+           "date spelling of boundary instants) and by escape/month tables regenerated from the live module. 'All documented date spellings "
+           "denote the same instants' is proved for an explicit spelling family (spellings_agree: order DMY/YMD, day absent/plain/"
+           "zero-padded, month numeric plain/padded or a three-letter name in all 8 letter cases, year 4 digits or 2 digits for "
+           "1993-2092 in DMY order, time absent/HH:MM/HH:MM:SS bare or parenthesised after one or more spaces), compositionally "
+           "through the two date regexes, _date_fix and the strptime acceptance model. The float clause is outside any model "
+           "(CPython repr) and is decided by a direct oracle only.",
       note="Trusted: Lean kernel + propext/Classical.choice/Quot.sound; the hand-written model (validated only on generated "
            "inputs); Python harness and its naive oracle. Not modelled: float repr, non-ASCII int()/date spellings ('unmodelled' "
            "answers are not compared), the strptime library (acceptance model compared on all generated spellings).",
@@ -83,11 +86,17 @@ claim("C04",
            "handle constraint, HEQ for a direct label; MOD/EQ between representatives of one scope) with no well-formedness "
            "hypothesis; node/top/index shape; preservation of the predication sequence by the round trip; totality when the top "
            "scope has a representative, with a kernel-checked counter-example (F08, known finding) for well-formed input without "
-           "one. Isomorphism of the round trip and equality of the second conversion are decided by the direct oracle on the real "
-           "code (mrs.is_isomorphic plus an independent bijection search; direct comparison).",
-      note="Not proved: isomorphism of the round trip with the stripped source, top/index selecting the same predication, equality "
-           "of the second conversion (oracle on generated well-formed inputs with qeq constraints, x/e/i/p/u IVs, quantifiers "
-           "binding the head of their restriction). Set iteration order in conjoin is a parameter of the model; warnings are not "
+           "one. Round 2 (20 theorems in all), for every choice of scope labels by conjoin: the round trip preserves top and index "
+           "(same predication by position), the MRS coming back has distinct EP ids, non-scopal arguments, scopal arguments with "
+           "their handle constraints and label sharing are preserved per position, and the second conversion is stable (same "
+           "nodes, top, index, set of links) under named decidable hypotheses. The single variable bijection with the stripped "
+           "source (isomorphism) is decided by the direct oracle on the real code (mrs.is_isomorphic plus an independent "
+           "bijection search).",
+      note="The stability theorem holds under BaseIdsDistinct, RolesOk (no role named MOD), IVSorts (x/e/i/p/u) and RstrLinked, plus a "
+           "decidable positional-agreement hypothesis on representatives (RepsAgree) that is evaluated on every generated case by "
+           "the driver (a false flag on an in-space case fails the run), not derived. Not proved: the single variable bijection "
+           "with strip m (oracle on generated well-formed inputs with qeq constraints, quantifiers binding the head of their "
+           "restriction). Set iteration order in conjoin is a parameter of the model; warnings are not "
            "observed. Trusted: Lean kernel + 3 standard axioms, the hand-written model (4k comparisons per quick run), harness, oracle.",
       technique="Lean 4 proof over executable model + differential correspondence with the Python implementation",
       design_ref="DESIGN.md §5 C04")
@@ -113,16 +122,20 @@ claim("C05",
       design_ref="DESIGN.md §5 C05")
 
 claim("C12",
-      text="Proved in Lean 4 (26 theorems) for all profiles, schemas, filter outcomes and flag combinations of the model of "
+      text="Proved in Lean 4 (48 theorems) for all profiles, schemas, filter outcomes and flag combinations of the model of "
            "commands.mkprof: a profile made from a source profile holds, per copied relation, exactly the selected rows in order, "
            "with cells unchanged up to the field default and by-name remapping under a different schema; uncopied relations are "
            "empty; the skeleton/full file-presence rules hold; in-place refresh preserves rows; text input gives one item per line "
            "with the '*' mark handled; a well-formed source never fails. The filter clause is proved exactly under 'no identical "
            "rows adjacent among the satisfying rows'; that hypothesis is shown necessary with decide-checked counter-examples "
-           "(F20, known finding: _tsql_distinct merges adjacent identical rows).",
+           "(F20, known finding: _tsql_distinct merges adjacent identical rows). Round 2: exact cell content for text input (i-id = "
+           "line number unless given, i-wf = 0 iff the line starts with '*', i-length = word count against the generated isspace "
+           "table, duplicate ids rejected, header handling per delimiter); refresh is total and preserves rows without a success "
+           "hypothesis; the join plan (pivots, reachability in the key-sharing graph) is modelled and the all-rows fallback is "
+           "characterised (no key path from the table to a relation of the filter ⇒ all rows copied).",
       note="Only compared, not proved: the tie between the model and commands.mkprof (2.7k generated cases per quick run, 30k "
-           "thorough); i-id and i-length values and the rejections for delimited text. Assumed: TSQL evaluation is a model "
-           "parameter (per-row counts of satisfying joined tuples from the harness's nested-loop evaluator); files are row lists "
+           "thorough). Assumed: column resolution and the per-row counts of satisfying joined tuples are model parameters (from "
+           "the harness's nested-loop evaluator); files are row lists "
            "with logical mtimes, gzip is the identity, escaping left to C08/C09; schemas key-consistent with plain identifiers; "
            "no date literals in filters; source and destination directories distinct.",
       technique="Lean 4 proof over executable model + differential correspondence with the Python implementation",
@@ -213,7 +226,7 @@ claim("C20",
       design_ref="DESIGN.md §5 C20")
 
 claim("C03",
-      text="Proved for all graphs and all (properties, lnk, show_status, indent) (21 theorems): the native decoder run on the "
+      text="Proved for all graphs and all (properties, lnk, show_status, indent) (23 theorems): the native decoder run on the "
            "encoder's token stream followed by anything returns the graph (exact top detection by the 2–3 token look-ahead, node "
            "loop, property and edge blocks, constant escaping, alignments) and stops after the closing brace; re-encoding "
            "reproduces the text; multi-graph documents are read graph by graph; suppression removes exactly properties plus type "
